@@ -227,7 +227,7 @@ pub fn run_c20() {
     }
     for k in ["talk_events", "respond_after_shutdown", "drop_after_shutdown"] {
         if stats.counters.get(k).copied().unwrap_or(0) == 0 {
-            mc::machinery(&format!("C20 vacuous: {k} = 0"));
+            rep.vacuous(&format!("C20 vacuous: {k} = 0"));
         }
     }
     rep.finish();
@@ -596,7 +596,7 @@ pub fn run_c14() {
         rep.violation(p);
     }
     if tot.multi_packet == 0 || tot.capped == 0 || tot.max_wire < 1270 {
-        mc::machinery("C14 vacuous: no multi-packet / capped / large answers");
+        rep.vacuous("C14 vacuous: no multi-packet / capped / large answers");
     }
     rep.finish();
 }
@@ -902,7 +902,7 @@ pub fn run_c17() {
         rep.violation(v);
     }
     if counters.get("address_changes").copied().unwrap_or(0) == 0 {
-        mc::machinery("C17 vacuous: the address never changed");
+        rep.vacuous("C17 vacuous: the address never changed");
     }
     rep.finish();
 }
